@@ -1029,6 +1029,6 @@ class Exec(object):
 
 
 BUILTINS = {'len', 'isinstance', 'hasattr', 'callable', 'str', 'repr', 'int', 'float', 'list', 'dict', 'tuple', 'iter', 'next', 'any', 'all',
-            'sorted', 'enumerate', 'range', 'type', 'super', 'open', 'bytes', 'bool', 'getattr', 'min', 'max', 'property', 'set', 'zip', 'id'}
+            'sorted', 'enumerate', 'range', 'type', 'super', 'open', 'bytes', 'bool', 'getattr', 'min', 'max', 'property', 'set', 'frozenset', 'zip', 'id'}
 LIBCONST = {'six.PY2': B(False), 'six.PY3': B(True), 'signal.SIGKILL': I(9)}
 OBJMETHODS = set()      # (class, method) pairs with a library model; filled by pyvc.lib
